@@ -731,9 +731,11 @@ func (s *expSession) opData1(i int, op plan.Op) {
 		nrec = 1
 	}
 	maxVar := int(op.D)
-	countDelta, illKind, sizeTarget := 0, 0, 0
+	countDelta, illKind, sizeTarget, shortRec := 0, 0, 0, -1
 	for _, f := range op.F {
 		switch f.K {
+		case "shortrec":
+			shortRec = int(f.A) % nrec
 		case "count":
 			countDelta = int(f.A)
 		case "illtyped":
@@ -817,6 +819,39 @@ func (s *expSession) opData1(i int, op plan.Op) {
 				panic(err)
 			}
 			elems[k] = mkElement(sp, ie, recWires[k])
+		}
+		if rec == shortRec {
+			// One record of the set is not a record of this template: a one-byte element sits where the
+			// template has a wider one and its variable-length values are empty, so the record is shorter
+			// than any record of the template can be - while its neighbours carry long values. The field
+			// count is right. Sent as it is, the set would not be a sequence of records of its template.
+			minLen, recLen, at := 0, 0, -1
+			for k, sp := range recSpecs {
+				if sp.Len == entities.VariableLength {
+					minLen++
+					recWires[k] = nil
+					ie, _ := registry.GetInfoElement(sp.Name, sp.Ent)
+					elems[k] = mkElement(sp, ie, nil)
+					recLen++
+					continue
+				}
+				minLen += int(sp.Len)
+				if at < 0 && sp.Len >= 2 {
+					at = k
+					recLen++
+					continue
+				}
+				recLen += int(sp.Len)
+			}
+			if at >= 0 && recLen < minLen && len(recSpecs) == len(specs) {
+				ie, err := registry.GetInfoElement("protocolIdentifier", registry.IANAEnterpriseID)
+				if err != nil {
+					panic(err)
+				}
+				elems[at] = entities.NewUnsigned8InfoElement(ie, 6)
+				c.Valid, c.Expect, c.Why = false, "error", "a record is shorter than the shortest record of its template (a narrower element in one position)"
+				s.env.Count("probe.short_record_among_long_ones", 1)
+			}
 		}
 		if illKind > 0 && rec == 0 {
 			if k, el, why := illTyped(recSpecs, illKind); k >= 0 {
@@ -1401,6 +1436,8 @@ func clauseWord(why string) string {
 		return "addr-family"
 	case bytes.Contains([]byte(why), []byte("octet")):
 		return "fixed-length"
+	case bytes.Contains([]byte(why), []byte("shorter than the shortest")):
+		return "short-record"
 	case bytes.Contains([]byte(why), []byte("count")):
 		return "field-count"
 	case bytes.Contains([]byte(why), []byte("bytes")):
